@@ -189,7 +189,17 @@ def text_order_certain(a, b):
     return True
 
 
+_ODD_SPACE = re.compile(r'[\t\n\r\x0b\x0c\xa0]')
+
+
 def accept(op, *args):
+    if op in ARITH or op in ('u-', '%'):
+        # numeric text padded with white space other than blanks (line feed,
+        # tab, NBSP): whether Excel coerces it is not part of the statement
+        for a in args:
+            if kind(a) == 'text' and _ODD_SPACE.search(a) and \
+                    _NUMTEXT.match(_ODD_SPACE.sub(' ', a)):
+                return None
     if op in ARITH:
         return arith(op, *args)
     if op == '&':
